@@ -23,6 +23,8 @@ const (
 	opSlice
 	opReverse
 	opDrain
+	opBulkPush // N pushes in a row (queues far beyond the sizes the index uses: growth and shrinking of the backing store)
+	opBulkPop  // N pops in a row
 	nOps
 )
 
@@ -30,12 +32,14 @@ type Op struct {
 	K int     `json:"k"` // kind
 	Q int     `json:"q"` // queue selector (mod number of live queues)
 	P float32 `json:"p"` // priority (push)
+	N int     `json:"n,omitempty"` // bulk ops: how many
 }
 
 type Case struct {
 	Max bool      `json:"max"` // first queue is a max-queue
 	Pre []float32 `json:"pre"` // priorities pushed before the op sequence starts
 	Ops []Op      `json:"ops"`
+	Big bool      `json:"big,omitempty"` // bulk ops enabled (otherwise they count as a single push / pop)
 }
 
 // model of one queue: multiset of (priority, serial) pairs.
@@ -93,9 +97,12 @@ func genCase(t *rapid.T) Case {
 	maxOps := pbt.Pick(40, 120)
 	op := rapid.Custom(func(t *rapid.T) Op {
 		// weights: push-heavy so queues grow past the sizes the unit tests use
-		k := rapid.SampledFrom([]int{opPush, opPush, opPush, opPush, opPop, opPop, opPeek, opLen, opSlice, opReverse, opDrain}).Draw(t, "k")
+		k := rapid.SampledFrom([]int{opPush, opPush, opPush, opPush, opPop, opPop, opPeek, opLen, opSlice, opReverse, opDrain, opBulkPush, opBulkPop}).Draw(t, "k")
 		o := Op{K: k, Q: rapid.SampledFrom([]int{0, 0, 0, 1, 1, 1, 2, 3, 4, 5}).Draw(t, "q")}
-		if k == opPush {
+		if k == opBulkPush || k == opBulkPop {
+			o.N = rapid.SampledFrom([]int{20, 100, 129, 150, 300, 600}).Draw(t, "n")
+		}
+		if k == opPush || k == opBulkPush {
 			if rapid.IntRange(0, 3).Draw(t, "grid") > 0 {
 				o.P = rapid.SampledFrom(prios).Draw(t, "p")
 			} else {
@@ -109,6 +116,7 @@ func genCase(t *rapid.T) Case {
 		Max: rapid.Bool().Draw(t, "max"),
 		Pre: rapid.SliceOfN(prio, 0, 12).Draw(t, "pre"),
 		Ops: rapid.SliceOfN(op, 6, maxOps).Draw(t, "ops"),
+		Big: rapid.IntRange(0, 9).Draw(t, "big") == 0,
 	}
 }
 
@@ -164,14 +172,44 @@ func check(c Case, o *pbt.Obs) *pbt.Failure {
 	for step, op := range c.Ops {
 		i := op.Q % len(qs)
 		if reversedBig >= 0 {
-			if i == revSrc && (op.K == opPush || op.K == opPop || op.K == opDrain) {
+			if i == revSrc && (op.K == opPush || op.K == opPop || op.K == opDrain || op.K == opBulkPush || op.K == opBulkPop) {
 				opsAfterOnSrc = true
 			}
-			if i == revDst && (op.K == opPush || op.K == opPop || op.K == opDrain) {
+			if i == revDst && (op.K == opPush || op.K == opPop || op.K == opDrain || op.K == opBulkPush || op.K == opBulkPop) {
 				opsAfterOnDst = true
 			}
 		}
+		if !c.Big {
+			if op.K == opBulkPush {
+				op.K = opPush
+			} else if op.K == opBulkPop {
+				op.K = opPop
+			}
+		}
 		switch op.K {
+		case opBulkPush:
+			for j := 0; j < op.N; j++ {
+				serial++
+				p := op.P + float32((j*37)%101) // a spread of priorities with ties, derived from the drawn one
+				qs[i].Push(utils.NewPriorityQueueItem(p, serial))
+				ms[i].items = append(ms[i].items, mItem{p, serial})
+			}
+			if len(ms[i].items) >= 256 {
+				o.Label("queue>=256")
+			}
+		case opBulkPop:
+			was := len(ms[i].items)
+			for j := 0; j < op.N && len(ms[i].items) > 0; j++ {
+				if f := popOne(step, i); f != nil {
+					return f
+				}
+				if qs[i].Len() != len(ms[i].items) {
+					return pbt.Failf("C19:len", "step %d: queue %d Len()=%d after a pop, model holds %d", step, i, qs[i].Len(), len(ms[i].items))
+				}
+			}
+			if was >= 256 && len(ms[i].items) < was/4 {
+				o.Label("grown-then-drained-below-a-quarter")
+			}
 		case opPush:
 			serial++
 			qs[i].Push(utils.NewPriorityQueueItem(op.P, serial))
@@ -251,7 +289,7 @@ func TestQueueModel(t *testing.T) {
 	pbt.Run(t, pbt.Prop[Case]{
 		ID:    "C19",
 		Name:  "TestQueueModel",
-		Rule:  "rapid-generated op sequences (push/pop/peek/len/values/reverse/drain, priorities from a tie-heavy grid or floats in [0,1000]) over a family of min/max queues vs a multiset model; non-trivial = a Reverse of a queue holding >=4 items followed by mutating ops on both the source and the reversed queue; distinct = distinct case JSON",
+		Rule:  "rapid-generated op sequences (push/pop/peek/len/values/reverse/drain, and in a tenth of the cases bulk pushes/pops of 20-600 items so that queues grow to hundreds of items and are drained again; priorities from a tie-heavy grid or floats in [0,1000]) over a family of min/max queues vs a multiset model; non-trivial = a Reverse of a queue holding >=4 items followed by mutating ops on both the source and the reversed queue; distinct = distinct case JSON",
 		Gen:   genCase,
 		Check: check,
 	})
